@@ -63,7 +63,7 @@ def info(prop):
                         "end .gro, end .itp each) plus distractors (.txt, unrelated .itp, unmatched .gro, the reference "
                         "system itself), every subset of species given explicitly, and the shipped BMIM/BF4 files; for each, "
                         "every permutation of the topology set's iteration order times every permutation of the coordinate "
-                        "set's iteration order (quick tier: for 3 species and nothing explicit all 5040 topology orders x 3 "
+                        "set's iteration order (quick tier: for 3 species and nothing explicit all 5040 topology orders x 2 "
                         "coordinate orders plus 24 coordinate orders x 24 topology orders; thorough: the full product). "
                         "Families S2E/S2Q/S3Q put coordinate files of EQUAL atom count among the candidates (a distractor .gro as "
                         "large as a species' end .gro; two species with equally large end .gro files). "
@@ -485,9 +485,9 @@ def task_sort_stubbed(layout, explicit, lo, hi, coord_mode, seed, tag):
         extra = _explicit_files(case)
         tperms = list(itertools.permutations(tnames))[lo:hi]
         cperms = list(itertools.permutations(cnames))
-        if coord_mode == "few" and len(cperms) > 3:
+        if coord_mode == "few" and len(cperms) > 2:
             n = len(cnames)
-            cperms = [tuple(cnames), tuple(reversed(cnames)), tuple(cnames[n // 2:] + cnames[:n // 2])]
+            cperms = [tuple(cnames), tuple(reversed(cnames))]
         elif coord_mode.startswith("sample"):
             k = int(coord_mode[6:])
             allt = list(itertools.permutations(tnames))
@@ -1231,7 +1231,7 @@ def tasks(prop, tier, seed):
                            (layout, explicit, 0, nt, "all", seed, f"{fam}.tops{len(tn)}!xcoords{len(cn)}!"), 900.0))
             else:
                 mode = "all" if (thorough or nt * nc <= 5000) else "few"
-                used = nc if mode == "all" else 3
+                used = nc if mode == "all" else 2
                 for a, b in _chunks(nt, max(1, 1000 // used)):
                     ts.append((f"sort_molecules/{fam}/tops[{a}:{b}]", task_sort_stubbed,
                                (layout, explicit, a, b, mode, seed, f"{fam}.tops[{a}:{b}]xcoords.{mode}"), 900.0))
@@ -1253,7 +1253,7 @@ def tasks(prop, tier, seed):
     ts.append(("sort_molecules/native-sets/S3", task_sort_native, (["S3"], 1500 if thorough else 40, seed, "native-sets.S3.list-orderings"), 900.0))
     ts.append(("sort_molecules/native-sets/S2E.S2Q", task_sort_native, (["S2E", "S2Q"], 1500 if thorough else 60, seed, "native-sets.S2E.S2Q.list-orderings"), 900.0))
     ts.append(("sort_molecules/native-sets/S3Q", task_sort_native, (["S3Q"], 1500 if thorough else 40, seed, "native-sets.S3Q.list-orderings"), 900.0))
-    hq = list(range(1, 33)) if thorough else list(range(1, 5))
+    hq = list(range(1, 33)) if thorough else list(range(1, 4))
     for lay in ("S2E", "S2Q", "S3Q"):
         for i in range(0, len(hq), 8):
             part = hq[i:i + 8]
